@@ -105,9 +105,7 @@ mod cex {
         assert!(scenario_stream(2, [b0, b1, b2, b3], n, false));
     }
 
-    #[kani::proof]
-    #[kani::unwind(5)]
-    fn events() {
+    fn events_with(aspect: u8) {
         let k0: u8 = kani::any();
         let k1: u8 = kani::any();
         let k2: u8 = kani::any();
@@ -116,8 +114,26 @@ mod cex {
         let s2: u8 = kani::any();
         let modes: u8 = kani::any();
         let n: u8 = kani::any();
-        kani::assume(k0 < X_NKEYS && k1 < X_NKEYS && k2 < X_NKEYS && s0 < 3 && s1 < 3 && s2 < 3 && modes < 8 && n <= 3);
-        assert!(scenario_events([k0, k1, k2], [s0, s1, s2], modes, n, false));
+        kani::assume(k0 < X_NKEYS && k1 < X_NKEYS && k2 < X_NKEYS && s0 < 3 && s1 < 3 && s2 < 3 && modes < 64 && n <= 3);
+        assert!(scenario_events_aspect([k0, k1, k2], [s0, s1, s2], modes, n, aspect, false));
+    }
+
+    #[kani::proof]
+    #[kani::unwind(5)]
+    fn events() {
+        events_with(3);
+    }
+
+    #[kani::proof]
+    #[kani::unwind(5)]
+    fn events_mods() {
+        events_with(1);
+    }
+
+    #[kani::proof]
+    #[kani::unwind(5)]
+    fn events_decode() {
+        events_with(2);
     }
 
     /// `pre_bits` is a constant of the harness so that CBMC knows how many bits are pending
